@@ -99,11 +99,11 @@ def r1b(fx):
     yield from _whole_string_uses(fx)
 
 
-def _pattern_uses(fx):
+def _pattern_uses(fx, fns=('find_mode', 'is_alphanumeric', 'is_kanji')):
     """(pattern name, method, call node) for every consultation of a module-level compiled pattern by the detection functions."""
     ns = ev.module_consts(fx.forest, 'encoder')
     out = []
-    for q in ('find_mode', 'is_alphanumeric', 'is_kanji'):
+    for q in fns:
         for n in ast.walk(fx.fn('encoder', q)):
             if isinstance(n, ast.Attribute) and isinstance(n.value, ast.Name) and ns.has(n.value.id) \
                     and isinstance(ns.get(n.value.id), ev.RePattern):
@@ -133,9 +133,10 @@ def _whole_string_uses(fx):
 
 @rule('C07', 'R2', 4, 'the alphanumeric pattern is [the 45 ISO characters]+ and is consulted on the whole string; find_mode sees bytes')
 def r2(fx):
-    uses = [u for u in _pattern_uses(fx)]
+    # the pattern behind the alphanumeric decision (a pattern that is_kanji may consult is decided by R3, on every byte pair)
+    uses = [u for u in _pattern_uses(fx, ('find_mode', 'is_alphanumeric'))]
     names = sorted({u[0] for u in uses})
-    need(len(names) == 1, f'the detection functions consult {names}: exactly one compiled pattern expected')
+    need(len(names) == 1, f'the alphanumeric detection consults {names}: exactly one compiled pattern expected')
     pname = names[0]
     p = C(fx, pname, 'encoder')
     need(isinstance(p, ev.RePattern) and isinstance(p.pattern, bytes), f'{pname} is not a compiled bytes pattern')
